@@ -381,6 +381,18 @@ func (e *Engine) evalBinary(env *Env, v *ast.BinaryExpr) TV {
 	x := e.eval(env, v.X)
 	y := e.eval(env, v.Y)
 	isCmp := v.Op == token.EQL || v.Op == token.NEQ || v.Op == token.LSS || v.Op == token.LEQ || v.Op == token.GTR || v.Op == token.GEQ
+	if v.Op == token.ADD && x.T != nil && y.T != nil && x.Konst == nil && y.Konst == nil {
+		// string concatenation (the same function symbol the executor uses)
+		if xb, ok := x.T.Underlying().(*types.Basic); ok && xb.Info()&types.IsString != 0 {
+			if yb, ok := y.T.Underlying().(*types.Basic); ok && yb.Info()&types.IsString != 0 {
+				xs, ok1 := x.V.(*Sc)
+				ys, ok2 := y.V.(*Sc)
+				if ok1 && ok2 {
+					return TV{V: &Sc{e.strConcat(xs.T, ys.T)}, T: x.T}
+				}
+			}
+		}
+	}
 	if x.Konst != nil && y.Konst != nil {
 		if isCmp {
 			c := x.Konst.Cmp(y.Konst)
